@@ -134,6 +134,7 @@ def run_job(job):
             finally:
                 for k in agg:
                     agg[k] += c.stats.get(k, 0)
+                agg["max_query_s"] = max(agg.get("max_query_s", 0.0), c.stats.get("max_query_s", 0.0))
                 for l, nn in c.proved_labels.items():
                     res.proved[l] = res.proved.get(l, 0) + nn
                 for l, nn in c.reach_labels.items():
@@ -349,8 +350,10 @@ class Check:
             print(l)
         tot = self.totals()
         slow = sorted(((r.stats.get("wall_s", 0), r.name) for r in self.results), reverse=True)[:3]
-        print("  slowest jobs: %s; phases: solve %.1fs, replay %.1fs" %
-              (", ".join("%s %.1fs" % (n, w) for w, n in slow), getattr(self, "t_solve", 0), time.time() - self.t0 - getattr(self, "t_solve", 0)))
+        mq = max([r.stats.get("max_query_s", 0.0) for r in self.results] or [0.0])
+        print("  slowest jobs: %s; slowest single obligation query %.1fs (limit %.0fs, then retries); phases: solve %.1fs, replay %.1fs" %
+              (", ".join("%s %.1fs" % (n, w) for w, n in slow), mq, 20.0 if self.tier == "quick" else 120.0, getattr(self, "t_solve", 0),
+               time.time() - self.t0 - getattr(self, "t_solve", 0)))
         print("%s %s tier=%s jobs=%d paths=%d queries=%d proved=%d failed=%d solver=%.1fs wall=%.1fs -> exit %d"
               % (self.pid, "OK" if exitcode == 0 else ("VIOLATION" if exitcode == 1 else "INCONCLUSIVE"),
                  self.tier, len(self.results), tot["paths"], tot["queries"], tot["proved"], tot["failed"],
